@@ -250,6 +250,19 @@ def run(prog, rep, tier):
                bs[0].loc() if bs else '?')
 
     # ---------------- R03.3 chunk binding
+    # build_nonce itself: the nonce contains the archive prefix and the 4 low-order bytes of the chunk counter (whatever the endianness --
+    # that is C06's concern): two chunk numbers below 2^32 never give the same nonce
+    bn = one_body(prog, rep, 'R03.3', 'mla', exact='layers::encrypt::build_nonce')
+    if bn is not None:
+        from .c06 import nonce_layout
+        layout = nonce_layout(prog, bn)
+        ctr = [(rng, w) for rng, w in layout if w in ('ctr:be', 'ctr:le') and rng is not None and None not in rng and rng[1] - rng[0] == 4]
+        pre = [(rng, w) for rng, w in layout if w == 'prefix' and rng is not None and None not in rng and rng[1] - rng[0] == 8]
+        disjoint = bool(ctr) and bool(pre) and (ctr[0][0][1] <= pre[0][0][0] or pre[0][0][1] <= ctr[0][0][0])
+        ok = len(ctr) == 1 and len(pre) == 1 and disjoint and len(layout) == 2
+        rep.ob('R03.3', ok, 'R03.3|%s|nonce-binds-chunk-number' % bn.nkey, 'nonce = 8-byte archive prefix + the 4 low-order bytes of the chunk counter (injective in the chunk number)' if ok else
+               'the nonce does not contain the 4 low-order bytes of the chunk counter next to the 8-byte prefix (layout %s): different chunks can be sealed under the same nonce, '
+               'so swapped / duplicated / dropped chunks still authenticate' % (layout,), bn.loc())
     news = []
     for body in mla.bodies:
         if not body.defpath.startswith('layers::encrypt::'):
